@@ -1,4 +1,5 @@
 import SradModel.Model.Metric
+import SradModel.Model.MetricWire
 import SradModel.Drv.Util
 
 /-
@@ -8,6 +9,12 @@ publish metrics `P(..)`, payload metrics `Q(..)`, typed property sets `us(..)`, 
 sets `ps(k(..);v(..))`, store entries `E(..)` / `B(..)`.
 Property sets in *answers* are printed sorted by key (stably) at every level: a property set is a
 map and its order on the wire is the hash map's.
+
+Requests through the concrete wire codec of `Model/MetricWire.lean` (C12W; `valid` = `validUtf8`):
+  metric wenc <seq|_> <ts|_> L(Q..)   -> ok <hex of encW payload> | range <hex> (payload not `inRange`)
+  metric wdec <hex>                   -> ok <seq|_> <ts|_> L(Q..) | err        (`decW`)
+  metric we2e <who> <variant> <prevseq> <now> L(P..)
+        -> as `metric e2e`, but the host reads `decW (encW payload)` (`invalid-publish` if that fails)
 -/
 /- everything but `stepMetric` lives in its own namespace (no clashes with other drivers) -/
 namespace Srad.Drv.M12
@@ -374,6 +381,62 @@ def stepMetric : List String → String
         | .refused .noMetrics => "nometrics"
         | .refused _ => "state"
         | .handedOver p _ => "ok " ++ hostDataAnswer (ndataOfPayload p)
+      | none => "bad-op"
+    | _, _ => "bad-op"
+  | ["wbytes", who, variant, prevseq, now, l] =>
+    -- the bytes of the message the edge hands over: `encW` of the published payload (ties `toTree`)
+    match prevseq.toNat?, now.toNat? with
+    | some prevseq, some now =>
+      match pList (pPM now) l with
+      | some ms =>
+        if who ≠ "n" && who ≠ "d" then "bad-op" else
+        let st : EdgeState := { seq := prevseq, online := true, birthed := true }
+        let single := variant = "pm" || variant = "tpm"
+        let sorting := variant = "pms" || variant = "tpms"
+        let known := single || sorting || variant = "pmu" || variant = "tpmu"
+        if !known || (single && ms.length ≠ 1) then "bad-op" else
+        let r := if sorting then publishSorted true now st ms else publishUnsorted true now st ms
+        match r with
+        | .refused .noMetrics => "nometrics"
+        | .refused _ => "state"
+        | .handedOver p _ => "ok " ++ hex (encW p)
+      | none => "bad-op"
+    | _, _ => "bad-op"
+  | ["wenc", seq, ts, l] =>
+    let seq? : Option (Option Nat) := if seq = "_" then some none else seq.toNat?.map some
+    let ts? : Option (Option Nat) := if ts = "_" then some none else ts.toNat?.map some
+    match seq?, ts?, pList pQM l with
+    | some seq, some ts, some ms =>
+      let p : Payload := { timestamp := ts, metrics := ms, seq := seq }
+      (if inRange validUtf8 p then "ok " else "range ") ++ hex (encW p)
+    | _, _, _ => "bad-op"
+  | ["wdec", h] =>
+    match unhex h with
+    | some b =>
+      match decW validUtf8 b with
+      | some p => s!"ok {sON p.seq} {sON p.timestamp} " ++ node "L" (p.metrics.map sQM)
+      | none => "err"
+    | none => "bad-op"
+  | ["we2e", who, variant, prevseq, now, l] =>
+    match prevseq.toNat?, now.toNat? with
+    | some prevseq, some now =>
+      match pList (pPM now) l with
+      | some ms =>
+        if who ≠ "n" && who ≠ "d" then "bad-op" else
+        let st : EdgeState := { seq := prevseq, online := true, birthed := true }
+        let single := variant = "pm" || variant = "tpm"
+        let sorting := variant = "pms" || variant = "tpms"
+        let known := single || sorting || variant = "pmu" || variant = "tpmu"
+        if !known || (single && ms.length ≠ 1) then "bad-op" else
+        let r := if sorting then publishSorted true now st ms else publishUnsorted true now st ms
+        match r with
+        | .refused .noMetrics => "nometrics"
+        | .refused _ => "state"
+        | .handedOver p _ =>
+          match hostReceiveData (decW validUtf8) (encW p) with
+          | .invalidPublish => "invalid-publish"
+          | .invalidPayload e => "ok " ++ hostDataAnswer (.error e)
+          | .data d => "ok " ++ hostDataAnswer (.ok d)
       | none => "bad-op"
     | _, _ => "bad-op"
   | _ => "bad-op"
